@@ -24,22 +24,22 @@ CLAIMED = {
     'C02': ('6 C02', 'DER/CER round trips through every wider decoder + agreement, judged by the reference model'),
     'C03': ('6 C03', 'byte identity of DER/CER with the TLA+ reference encoder; BER output read by the TLA+ reference reader'),
     'C06': ('6 C06', 'every proper prefix of library and reference encodings, one-shot clause'),
-    'C07': ('6 C07', 'encoding + tail, one-shot clause'),
-    'C09': ('6 C09', 'all sender options of the reference encoder (length forms, def/indef mixes, segmentation, TRUE octets, SET order, defaults) decoded by pyasn1'),
-    'C13': ('6 C13', 'tag algebra of spec/X690.tla vs tagSet objects, identifier octets, near-miss rejection'),
+    'C07': ('6 C07', 'encoding + tail, one-shot clause; streaming clause: back-to-back encodings (also > 8 KiB) through the real StreamingDecoder, one object per encoding and position = end of that encoding, judged by Trace_Stream and Trace_Mech'),
+    'C09': ('6 C09', 'all sender options of the reference encoder (length forms, def/indef mixes, segmentation, TRUE octets, SET order, defaults) decoded by pyasn1; component windows of spec/NamedTypes.tla (every component list up to 4/5) replayed into pyasn1.type.namedtype'),
+    'C13': ('6 C13', 'tag algebra of spec/X690.tla vs tagSet objects, identifier octets, near-miss rejection; tagging-history machine spec/Tags.tla (action properties by TLC, every history replayed into TagSet / subtype / TagMap)'),
     'C15': ('6 C15', 'single-element non-canonical rewrites validated by the reference readers, then required to be rejected'),
     'C16': ('6 C16', 'schemaless decoding of self-describing encodings: leaves and DER re-encoding'),
-    'C05': ('6 C05', 'StreamMech refines StreamIdeal (TLC); every arrival partition x close timing x idle polls x stream kinds driven through the real StreamingDecoder, each poll judged by the ideal layer (Trace_Stream)'),
-    'C08': ('6 C08', 'all short strings over a structural alphabet + single mutations of valid encodings; status class and step bound judged by Trace_Clean'),
+    'C05': ('6 C05', 'StreamMech refines StreamIdeal (TLC); every arrival partition x close timing x idle polls x stream kinds driven through the real StreamingDecoder, each poll judged by the ideal layer (Trace_Stream); every read/seek/mark of the K3 executions judged by the read protocol (Trace_Mech)'),
+    'C08': ('6 C08', 'all short strings over a structural alphabet + single mutations of valid encodings; status class and step bound judged by Trace_Clean; dispatch state machine spec/DecoderSM.tla model-checked (acyclic, terminating) and the decoder\'s own transitions + stream positions, recorded through the PYASN1_VERIF_TRACE hook, validated by Trace_DecoderSM'),
     'C04': ('6 C04', 'construction histories (assignment orders, explicit/implicit DEFAULTs, decode of every reference form, clones, read-only uses) of one abstract value: DER/CER equal across histories and equal to the reference DER; decode/re-encode fixpoint'),
     'C10': ('6 C10', 'every input a guided decoder accepts (neighbour-type encodings and mutations) judged by the independent well-typedness evaluator spec/WellTyped.tla, then re-encode/re-decode fixpoint'),
     'C12': ('6 C12', 'Session.tla (interleavings of suspended decoders, one-shot calls, debug switch) model-checked; recorded interleavings on one shared schema object, snapshots around every call, outcomes vs isolated runs, debug on, threads (sampled), judged by Trace_Session'),
-    'C14': ('6 C14', 'generator machine spec/Constraint.tla: every (expression tree, candidate), derivation chain and value-producing operation state replayed into pyasn1 and compared with the set-theoretic verdict'),
+    'C14': ('6 C14', 'generator machine spec/Constraint.tla: every (expression tree, candidate), derivation chain and value-producing operation state replayed into pyasn1 and compared with the set-theoretic verdict; BIT STRING and OBJECT IDENTIFIER operation histories of spec/BitStr.tla / spec/Oid.tla replayed observable by observable'),
     'C17': ('6 C17', 'native round trip judged by Norm equality; Python-value+schema encodings compared octet for octet with value-object encodings'),
     'C18': ('6 C18', 'open-type matrix (container x field x tagging x governor x inner type x maps x codec x resolution) judged by JudgeOpen against the reference encoding of the inner value'),
-    'C19': ('6 C19', 'object machines of spec/Container.tla (list / dict / at-most-one) as trace acceptor over all operation sequences of length 3 + random longer ones on real SEQUENCE OF, SEQUENCE, CHOICE objects'),
+    'C19': ('6 C19', 'object machines of spec/Container.tla (list / dict / at-most-one) as trace acceptor over all operation sequences of length 3 + random longer ones on real SEQUENCE OF (incl. slice reads/assignments), SEQUENCE, SET (incl. tag-addressed access) and CHOICE objects; named deviation F18 modelled exactly'),
     'C20': ('6 C20', 'X.680 time grammar and canonical-form predicate of spec/Time.tla judge datetime round trips over the grid and CER/DER outputs for every grammar string in the bounds'),
-    'C11': ('6 C11', 'CacheWrap model (invariant + refinement of a seekable stream); exhaustive operation histories on the real CachingStreamWrapper accepted by Trace_Wrap; 10 substrate kinds compared by Trace_Kinds'),
+    'C11': ('6 C11', 'CacheWrap model (invariant + refinement of a seekable stream); exhaustive operation histories on the real CachingStreamWrapper accepted by Trace_Wrap; 10 substrate kinds compared by Trace_Kinds; inductive invariant of the cache bookkeeping discharged by Apalache for unbounded sizes'),
 }
 checks = []
 for p in props:
